@@ -24,6 +24,7 @@ type Sink struct {
 	Path  []string // call chain for via-sinks
 	Field string   // field written, when known
 	Root  *Sink    // the primitive write this via-sink leads to (nil for a primitive write)
+	Target ssa.Value // the address stored to / the slice appended to, copied into or mutated (primitive writes)
 }
 
 // Origin returns the primitive write behind a sink.
@@ -50,9 +51,36 @@ const (
 	shared       // pointer-like value pointing into shared memory, or an address inside it
 )
 
+// pathSet: field paths (".3", ".0.1", "[]") of a fresh container that received shared pointers; nil = unknown (all).
+type pathSet map[string]bool
+
+func (p pathSet) sig() string {
+	if p == nil {
+		return "*"
+	}
+	var ks []string
+	for k := range p {
+		ks = append(ks, k)
+	}
+	sort.Strings(ks)
+	return strings.Join(ks, "|")
+}
+
+func (p pathSet) clone() pathSet {
+	if p == nil {
+		return nil
+	}
+	o := pathSet{}
+	for k := range p {
+		o[k] = true
+	}
+	return o
+}
+
 type sumKey struct {
 	fn  *ssa.Function
 	idx int  // parameter index (receiver is 0 for methods); -1-i for free variable i
+	psig string
 	sig string
 	k   kind // how the argument relates to shared memory: points into it, or is a fresh container of such pointers
 }
@@ -63,6 +91,7 @@ type summary struct {
 	writes  []Sink
 	alias   kind // shared: a result may point into the parameter's memory; carrier: a fresh object holding such pointers
 	aliasAt []kind // the same, per result index
+	pathsAt []pathSet // for carrier results: which field paths of the returned object hold shared pointers (nil = unknown)
 	escapes []Escape
 }
 
@@ -78,6 +107,11 @@ type Eng struct {
 	StopAt func(t types.Type) bool
 	cur      *elemSet
 	setRoot  func(*Sink)
+	initCP   map[ssa.Value]pathSet
+	lastPaths pathSet
+	lastPathsKnown bool
+	pathsOf  func(ssa.Value) (pathSet, bool)
+	setTarget func(ssa.Value)
 }
 
 func New(p *ir.Program) *Eng {
@@ -147,7 +181,16 @@ func (e *Eng) ReturnsAlias(fn *ssa.Function, idx int) bool { return e.sum(fn, id
 func (e *Eng) Escapes(fn *ssa.Function, idx int) []Escape { return e.sum(fn, idx, 0, shared, nil).escapes }
 
 func (e *Eng) sum(fn *ssa.Function, idx int, depth int, ak kind, el *elemSet) *summary {
-	k := sumKey{fn, idx, el.sig(), ak}
+	return e.sumP(fn, idx, depth, ak, el, nil)
+}
+
+// sumP: as sum, with the field paths of a carrier argument that hold shared pointers.
+func (e *Eng) sumP(fn *ssa.Function, idx int, depth int, ak kind, el *elemSet, ps pathSet) *summary {
+	psig := "*"
+	if ak == carrier {
+		psig = ps.sig()
+	}
+	k := sumKey{fn, idx, psig, el.sig(), ak}
 	s := e.sums[k]
 	if s == nil {
 		s = &summary{}
@@ -177,8 +220,13 @@ func (e *Eng) sum(fn *ssa.Function, idx int, depth int, ak kind, el *elemSet) *s
 	if el == nil && idx >= 0 && idx < len(fn.Params) {
 		el = elemsOf(fn.Params[idx].Type())
 	}
+	var initCP map[ssa.Value]pathSet
+	if ak == carrier && ps != nil && idx >= 0 && idx < len(fn.Params) {
+		initCP = map[ssa.Value]pathSet{fn.Params[idx]: ps.clone()}
+	}
+	e.initCP = initCP
 	res := e.run(fn, src, depth, el)
-	s.writes, s.alias, s.escapes, s.aliasAt = res.sinks, res.retShared, res.escapes, res.retAt
+	s.writes, s.alias, s.escapes, s.aliasAt, s.pathsAt = res.sinks, res.retShared, res.escapes, res.retAt, res.retPaths
 	s.busy = false
 	s.done = true
 	return s
@@ -188,6 +236,7 @@ type result struct {
 	sinks     []Sink
 	retShared kind
 	retAt     []kind
+	retPaths  []pathSet
 	escapes   []Escape
 	taint     map[ssa.Value]kind
 }
@@ -218,6 +267,24 @@ func (e *Eng) AnalyzeFlow(fn *ssa.Function, vals []ssa.Value) Flow {
 	return Flow{Sinks: r.sinks, Escapes: r.escapes, Returned: r.retShared == shared, ReturnedFresh: r.retShared == carrier}
 }
 
+// Kind is exported for callers that provide explicit sources.
+type Kind = kind
+
+const (
+	KindNone    = none
+	KindCarrier = carrier
+	KindShared  = shared
+)
+
+// AliasKind: how results of fn relate to memory reachable from parameter idx.
+func (e *Eng) AliasKind(fn *ssa.Function, idx int) Kind { return e.sum(fn, idx, 0, shared, nil).alias }
+
+// AnalyzeKinds runs from explicit (value → kind) sources.
+func (e *Eng) AnalyzeKinds(fn *ssa.Function, src map[ssa.Value]Kind) Flow {
+	r := e.run(fn, src, 0, nil)
+	return Flow{Sinks: r.sinks, Escapes: r.escapes, Returned: r.retShared == shared, ReturnedFresh: r.retShared == carrier}
+}
+
 // AnalyzeShared: sources given as values that are themselves shared pointers/aggregates.
 func (e *Eng) AnalyzeShared(fn *ssa.Function, vals []ssa.Value) ([]Sink, []Escape) {
 	src := map[ssa.Value]kind{}
@@ -243,13 +310,31 @@ func (e *Eng) run(fn *ssa.Function, src map[ssa.Value]kind, depth int, el *elemS
 	if len(t) == 0 {
 		return res
 	}
-	saved := e.cur
+	saved, savedRoot, savedTarget, savedPO := e.cur, e.setRoot, e.setTarget, e.pathsOf
 	e.cur = el
-	defer func() { e.cur = saved }()
+	defer func() { e.cur, e.setRoot, e.setTarget, e.pathsOf = saved, savedRoot, savedTarget, savedPO }()
 	// local allocs that hold carriers: tracked as carrier (address of local memory), with the
 	// field paths that actually received shared pointers
 	paths := map[*ssa.Alloc]map[string]bool{}
+	cp := map[ssa.Value]pathSet{} // non-alloc carrier pointers (parameters, call results): known shared field paths
+	cpKnown := map[ssa.Value]bool{}
+	for v, ps := range e.initCP {
+		cp[v] = ps
+		cpKnown[v] = true
+	}
+	e.initCP = nil
+	// pathsOf: the shared field paths of the fresh container v points to (ok=false: unknown)
+	pathsOf := func(v ssa.Value) (pathSet, bool) {
+		if al, ok := v.(*ssa.Alloc); ok {
+			return pathSet(paths[al]), true
+		}
+		if cpKnown[v] {
+			return cp[v], true
+		}
+		return nil, false
+	}
 	isLocalAddr := func(v ssa.Value) bool { return rootAlloc(v) != nil }
+	e.pathsOf = pathsOf
 	set := func(v ssa.Value, k kind) bool {
 		if k == none {
 			return false
@@ -301,6 +386,11 @@ func (e *Eng) run(fn *ssa.Function, src map[ssa.Value]kind, depth int, el *elemS
 							// this part of the local never received a shared pointer
 							continue
 						}
+						if base, pth := basePath(x.X); base != nil && get(base) == carrier {
+							if ps, ok := pathsOf(base); ok && !pathCompat(ps, pth) {
+								continue // this field of the fresh container never received a shared pointer
+							}
+						}
 						changed = set(x, loadKind(x.X, x.Type())) || changed
 					}
 				case *ssa.Lookup:
@@ -308,9 +398,25 @@ func (e *Eng) run(fn *ssa.Function, src map[ssa.Value]kind, depth int, el *elemS
 						changed = set(x, kindFor(x.Type())) || changed
 					}
 				case *ssa.Phi:
+					allKnown, any := true, false
+					merged := pathSet{}
 					for _, ed := range x.Edges {
 						if k := get(ed); k != none {
 							changed = set(x, k) || changed
+							any = true
+							if ps, ok := pathsOf(ed); ok {
+								for p := range ps {
+									merged[p] = true
+								}
+							} else {
+								allKnown = false
+							}
+						}
+					}
+					if any && allKnown && get(x) == carrier {
+						if !cpKnown[x] || len(cp[x]) != len(merged) {
+							cp[x], cpKnown[x] = merged, true
+							changed = true
 						}
 					}
 				case *ssa.ChangeType:
@@ -339,6 +445,9 @@ func (e *Eng) run(fn *ssa.Function, src map[ssa.Value]kind, depth int, el *elemS
 								k = none
 							} else if ck == carrier && k == shared {
 								k = carrier
+								if !cpKnown[x] && e.lastPathsKnown {
+									cp[x], cpKnown[x] = e.lastPaths.clone(), true
+								}
 							}
 						}
 						changed = set(x, k) || changed
@@ -362,6 +471,15 @@ func (e *Eng) run(fn *ssa.Function, src map[ssa.Value]kind, depth int, el *elemS
 				case *ssa.Store:
 					vk := get(x.Val)
 					if vk != none {
+						if base, pth := basePath(x.Addr); base != nil && get(base) == carrier && cpKnown[base] {
+							if cp[base] == nil {
+								cp[base] = pathSet{}
+							}
+							if !cp[base][pth] {
+								cp[base][pth] = true
+								changed = true
+							}
+						}
 						if al, pth := addrPath(x.Addr); al != nil {
 							// local memory now carries shared pointers (field-sensitive)
 							if paths[al] == nil {
@@ -385,6 +503,11 @@ func (e *Eng) run(fn *ssa.Function, src map[ssa.Value]kind, depth int, el *elemS
 					}
 				case *ssa.Call:
 					if k := e.callResult(x, get, depth); k != none {
+						if k == carrier && !cpKnown[x] {
+							if ps, ok := e.lastPaths, e.lastPathsKnown; ok {
+								cp[x], cpKnown[x] = ps.clone(), true
+							}
+						}
 						changed = set(x, k) || changed
 					}
 				case *ssa.Convert:
@@ -397,10 +520,14 @@ func (e *Eng) run(fn *ssa.Function, src map[ssa.Value]kind, depth int, el *elemS
 		}
 	}
 	// sinks and escapes
+	var retUnknown []bool
 	var curRoot *Sink
+	var curTarget ssa.Value
 	addSink := func(in ssa.Instruction, kind string, path []string, field string) {
-		res.sinks = append(res.sinks, Sink{Fn: fn, Instr: in, Kind: kind, Path: path, Field: field, Root: curRoot})
+		res.sinks = append(res.sinks, Sink{Fn: fn, Instr: in, Kind: kind, Path: path, Field: field, Root: curRoot, Target: curTarget})
+		curTarget = nil
 	}
+	e.setTarget = func(v ssa.Value) { curTarget = v }
 	e.setRoot = func(r *Sink) { curRoot = r }
 	for _, b := range fn.Blocks {
 		for _, in := range b.Instrs {
@@ -414,6 +541,7 @@ func (e *Eng) run(fn *ssa.Function, src map[ssa.Value]kind, depth int, el *elemS
 							continue
 						}
 					}
+					curTarget = x.Addr
 					addSink(in, "store", nil, f)
 				} else if get(x.Val) != none && !isLocalAddr(x.Addr) && ak == none {
 					// shared pointer stored into other non-local memory: escape
@@ -421,6 +549,7 @@ func (e *Eng) run(fn *ssa.Function, src map[ssa.Value]kind, depth int, el *elemS
 				}
 			case *ssa.MapUpdate:
 				if get(x.Map) == shared {
+					curTarget = x.Map
 					addSink(in, "map-update", nil, "")
 				} else if (get(x.Value) != none || get(x.Key) != none) && get(x.Map) == none {
 					res.escapes = append(res.escapes, Escape{Fn: fn, Instr: in})
@@ -440,6 +569,20 @@ func (e *Eng) run(fn *ssa.Function, src map[ssa.Value]kind, depth int, el *elemS
 					}
 					if k > res.retAt[i] {
 						res.retAt[i] = k
+					}
+					for len(res.retPaths) <= i {
+						res.retPaths = append(res.retPaths, pathSet{})
+						retUnknown = append(retUnknown, false)
+					}
+					if k == carrier {
+						if ps, ok := pathsOf(stripLoads(r)); ok && !retUnknown[i] {
+							for p := range ps {
+								res.retPaths[i][p] = true
+							}
+						} else {
+							retUnknown[i] = true
+							res.retPaths[i] = nil
+						}
 					}
 				}
 			case *ssa.Call:
@@ -640,6 +783,36 @@ func (e *Eng) callResultAt(call *ssa.Call, get func(ssa.Value) kind, depth int, 
 		return rk // unknown callee: assume it may return its argument
 	}
 	best := none
+	e.lastPaths, e.lastPathsKnown = pathSet{}, true
+	note := func(sm *summary) kind {
+		k := at(sm)
+		if k == carrier {
+			idx := ri
+			if idx < 0 {
+				idx = 0
+			}
+			if idx < len(sm.pathsAt) && sm.pathsAt[idx] != nil && sm.done {
+				for p := range sm.pathsAt[idx] {
+					e.lastPaths[p] = true
+				}
+			} else {
+				e.lastPathsKnown = false
+			}
+		}
+		return k
+	}
+	argPaths := func(a ssa.Value) pathSet {
+		if e.pathsOf == nil {
+			return nil
+		}
+		if ps, ok := e.pathsOf(a); ok {
+			if ps == nil {
+				return pathSet{}
+			}
+			return ps
+		}
+		return nil
+	}
 	for _, callee := range callees {
 		if callee.Blocks == nil || !e.P.InModule(callee) {
 			for _, i := range externalAlias(calleeName(c)) {
@@ -655,7 +828,10 @@ func (e *Eng) callResultAt(call *ssa.Call, get func(ssa.Value) kind, depth int, 
 				continue
 			}
 			if i < len(callee.Params) {
-				if k := at(e.sum(callee, i, depth+1, get(a), e.cur)); k > best {
+				savedL, savedK := e.lastPaths, e.lastPathsKnown
+				sm := e.sumP(callee, i, depth+1, get(a), e.cur, argPaths(a))
+				e.lastPaths, e.lastPathsKnown = savedL, savedK
+				if k := note(sm); k > best {
 					best = k
 				}
 			}
@@ -663,7 +839,10 @@ func (e *Eng) callResultAt(call *ssa.Call, get func(ssa.Value) kind, depth int, 
 		if mc, ok := c.Value.(*ssa.MakeClosure); ok {
 			for i, bnd := range mc.Bindings {
 				if get(bnd) != none {
-					if k := at(e.sum(callee, -1-i, depth+1, shared, e.cur)); k > best {
+					savedL, savedK := e.lastPaths, e.lastPathsKnown
+					sm := e.sum(callee, -1-i, depth+1, shared, e.cur)
+					e.lastPaths, e.lastPathsKnown = savedL, savedK
+					if k := note(sm); k > best {
 						best = k
 					}
 				}
@@ -688,10 +867,12 @@ func (e *Eng) callSinks(fn *ssa.Function, in ssa.Instruction, c *ssa.CallCommon,
 	if _, isB := c.Value.(*ssa.Builtin); isB {
 		for _, i := range externalWrites(name) {
 			if i < len(args) && get(args[i]) == shared && el.cellOK(elemType(args[i].Type())) {
+				e.setTarget(args[i])
 				addSink(in, name, nil, fieldName(args[i]))
 			}
 		}
 		if name == "append" && len(args) > 0 && get(args[0]) == shared && el.cellOK(elemType(args[0].Type())) {
+			e.setTarget(args[0])
 			addSink(in, "append", nil, fieldName(args[0]))
 		}
 		return
@@ -747,6 +928,7 @@ func (e *Eng) callSinks(fn *ssa.Function, in ssa.Instruction, c *ssa.CallCommon,
 			}
 			for _, i := range externalWrites(cn) {
 				if i < len(args) && get(args[i]) == shared && el.cellOK(elemType(args[i].Type())) {
+					e.setTarget(args[i])
 					addSink(in, "mutator:"+cn, nil, fieldName(args[i]))
 				}
 			}
@@ -756,7 +938,16 @@ func (e *Eng) callSinks(fn *ssa.Function, in ssa.Instruction, c *ssa.CallCommon,
 			if get(a) == none || i >= len(callee.Params) {
 				continue
 			}
-			s := e.sum(callee, i, depth+1, get(a), el)
+			var aps pathSet
+			if get(a) == carrier && e.pathsOf != nil {
+				if ps, ok := e.pathsOf(a); ok {
+					aps = ps
+					if aps == nil {
+						aps = pathSet{}
+					}
+				}
+			}
+			s := e.sumP(callee, i, depth+1, get(a), el, aps)
 			for _, w := range s.writes {
 				w := w
 				setRoot(&w)
@@ -976,4 +1167,52 @@ func inlineReach(t types.Type, elems []types.Type, d int) bool {
 		}
 	}
 	return false
+}
+
+
+// basePath walks FieldAddr/IndexAddr up to the pointer the address is derived from.
+func basePath(v ssa.Value) (ssa.Value, string) {
+	var parts []string
+	for i := 0; i < 12; i++ {
+		switch x := v.(type) {
+		case *ssa.FieldAddr:
+			parts = append(parts, fmt.Sprintf(".%d", x.Field))
+			v = x.X
+			continue
+		case *ssa.IndexAddr:
+			if _, ok := x.X.Type().Underlying().(*types.Pointer); ok {
+				parts = append(parts, "[]")
+				v = x.X
+				continue
+			}
+			return nil, ""
+		}
+		break
+	}
+	if len(parts) == 0 {
+		return nil, ""
+	}
+	p := ""
+	for j := len(parts) - 1; j >= 0; j-- {
+		p += parts[j]
+	}
+	return v, p
+}
+
+// stripLoads: a returned local variable is read back from its cell.
+func stripLoads(v ssa.Value) ssa.Value {
+	if u, ok := v.(*ssa.UnOp); ok && u.Op == token.MUL {
+		if al, ok := u.X.(*ssa.Alloc); ok {
+			var vals []ssa.Value
+			for _, ref := range *al.Referrers() {
+				if st, ok := ref.(*ssa.Store); ok && st.Addr == ssa.Value(al) {
+					vals = append(vals, st.Val)
+				}
+			}
+			if len(vals) == 1 {
+				return vals[0]
+			}
+		}
+	}
+	return v
 }
